@@ -2474,14 +2474,17 @@ func (self *TextServerProtocol) ProcessLockCommand(lockCommand *protocol.LockCom
 }
 
 func (self *TextServerProtocol) ProcessLockResultCommand(lockCommand *protocol.LockCommand, result uint8, lcount uint16, lrcount uint8, data []byte) error {
+	if self.closed {
+		return errors.New("Protocol Closed")
+	}
+	if lockCommand.RequestId != self.lockRequestId {
+		return nil
+	}
+
 	self.lockRequestId[0], self.lockRequestId[1], self.lockRequestId[2], self.lockRequestId[3], self.lockRequestId[4], self.lockRequestId[5], self.lockRequestId[6], self.lockRequestId[7],
 		self.lockRequestId[8], self.lockRequestId[9], self.lockRequestId[10], self.lockRequestId[11], self.lockRequestId[12], self.lockRequestId[13], self.lockRequestId[14], self.lockRequestId[15] =
 		0, 0, 0, 0, 0, 0, 0, 0,
 		0, 0, 0, 0, 0, 0, 0, 0
-
-	if self.closed {
-		return errors.New("Protocol Closed")
-	}
 
 	if self.freeCommandResult == nil {
 		lockResultCommad := protocol.NewLockResultCommand(lockCommand, result, 0, lcount, lockCommand.Count, lrcount, lockCommand.Rcount, data)
